@@ -70,7 +70,7 @@ func (c Case) Tree() *chaingen.Tree {
 		}
 		switch x.Kind {
 		case "corrupt-copy":
-			t.AddPayoutCorruptedCopyOf(t.Nodes[x.Of])
+			t.AddBodyCorruptedCopyOf(t.Nodes[x.Of])
 		case "on-invalid":
 			t.AddOnInvalidAt(t.Nodes[x.Of], uint64(k)+1)
 		}
